@@ -107,6 +107,15 @@ struct Proj {
   size_t gf = 0;   // fixups on the holder's global (detached from their label) list
   size_t gb = 0;   // ... of which carry no valid label id / section id (must be 0: fixup.h says a detached fixup holds its label id)
   uint32_t gd = 0; // digest over (section, offset, label id) of the global fixup list
+  int eh = 1;      // emitter configuration intact: error_handler() is the attached handler (identity), has_own_error_handler,
+                   // logger identity and diagnostic options are what the harness configured
+};
+
+// A user pass that refuses: reports through the emitter (= the postponed handler installed by run_passes) and returns the error.
+class C14FailPass : public Pass {
+public:
+  explicit C14FailPass(BaseBuilder& cb) noexcept : Pass(cb, "C14FailPass") {}
+  Error run(Arena&, Logger*) override { return _cb.report_error(make_error(Error::kInvalidState), "c14: user pass refuses"); }
 };
 
 struct ProbeObs { uint32_t err = 0, n = 0, dg = 0, dl = 0, dr = 0, df = 0; };
@@ -220,6 +229,10 @@ struct Exec {
         hsh = fnv(reinterpret_cast<const uint8_t*>(w), sizeof w, hsh);
       }
       p.gd = d31(hsh); }
+    { ErrorHandler* want = hk == 0 ? nullptr : &h;
+      Logger* want_lg = logger_on ? &lg : nullptr;
+      p.eh = (em->error_handler() == want && em->has_own_error_handler() == (hk != 0 && own_handler) &&
+              (!attached || em->logger() == want_lg) && em->diagnostic_options() == diag) ? 1 : 0; }
     Section* at = code.address_table_section();
     p.na = at ? size_t(at->virtual_size() / code.environment().register_size()) : 0;
     if (as && as->code()) { p.cs = as->current_section()->section_id(); p.off = as->offset(); }
@@ -238,8 +251,8 @@ struct Exec {
     s += "],\"sd\":[";
     for (size_t i = 0; i < p.sd.size(); i++) { snprintf(b, sizeof b, "%s%u", i ? "," : "", p.sd[i]); s += b; }
     char c[256];
-    snprintf(c, sizeof c, "],\"nl\":%zu,\"nf\":%zu,\"nr\":%zu,\"na\":%zu,\"nn\":%zu,\"cu\":%zu,\"cs\":%zu,\"off\":%zu,\"nv\":%zu,\"nb\":%zu,\"gf\":%zu,\"gb\":%zu,\"gd\":%u}",
-             p.nl, p.nf, p.nr, p.na, p.nn, p.cu, p.cs, p.off, p.nv, p.nb, p.gf, p.gb, p.gd);
+    snprintf(c, sizeof c, "],\"nl\":%zu,\"nf\":%zu,\"nr\":%zu,\"na\":%zu,\"nn\":%zu,\"cu\":%zu,\"cs\":%zu,\"off\":%zu,\"nv\":%zu,\"nb\":%zu,\"gf\":%zu,\"gb\":%zu,\"gd\":%u,\"eh\":%d}",
+             p.nl, p.nf, p.nr, p.na, p.nn, p.cu, p.cs, p.off, p.nv, p.nb, p.gf, p.gb, p.gd, p.eh);
     s += c;
   }
   void put_os(std::string& s, const char* key) {
@@ -693,8 +706,34 @@ struct Exec {
   void c_embed_array() {
     uint32_t t = r.chance(1, 2) ? uint32_t(TypeId::kInt8) + uint32_t(r.below(12)) : uint32_t(r.below(256));
     size_t cnt = size_t(r.below(6)), rep = size_t(r.below(4));
-    if (!bb && r.chance(1, 12)) { cnt = SIZE_MAX / 2; rep = 4; }   // (Builder: would only exercise allocation failure = C15)                 // overflowing size: must be refused before touching data
-    char in[64]; snprintf(in, sizeof in, "type=%u count=%zu repeat=%zu", t, cnt, rep);
+    if (!bb && r.chance(1, 12)) { cnt = SIZE_MAX / 2; rep = 4; }   // (Builder: would only exercise allocation failure = C15)
+    // size of one item as the API defines it (0 = not a valid data type: the call must fail anyway)
+    auto size_of_type = [&](uint32_t tt) -> size_t {
+      TypeId f = TypeUtils::deabstract(TypeId(tt), TypeUtils::deabstract_delta_of_size(em->register_size() ? em->register_size() : (arch == Arch::kX86 ? 4u : 8u)));
+      return TypeUtils::is_valid(f) ? size_t(TypeUtils::size_of(f)) : 0; };
+    if (!bb && r.chance(1, 4)) {                                     // boundary item counts: item_count * size at / beyond SIZE_MAX, 2^63
+      static const uint32_t tys[] = {uint32_t(TypeId::kInt8), uint32_t(TypeId::kUInt16), uint32_t(TypeId::kInt32), uint32_t(TypeId::kUInt64), uint32_t(TypeId::kFloat32),
+                                     uint32_t(TypeId::kFloat64), uint32_t(TypeId::kInt32x4), uint32_t(TypeId::kFloat64x4), uint32_t(TypeId::kInt8x64), uint32_t(TypeId::kIntPtr)};
+      t = tys[r.below(10)];
+      size_t sz = size_of_type(t); if (!sz) sz = 1;
+      switch (r.below(6)) {
+        case 0: cnt = SIZE_MAX / sz; break;
+        case 1: cnt = SIZE_MAX / sz + 1; break;
+        case 2: cnt = SIZE_MAX / sz + 2; break;                      // wraps to about one item
+        case 3: cnt = (size_t(1) << 63) / sz - 1; break;
+        case 4: cnt = (size_t(1) << 63) / sz + 1; break;
+        default: cnt = SIZE_MAX / sz + 1 + r.below(4); break;
+      }
+      static const size_t reps[] = {1, 1, 2, SIZE_MAX / 2 + 1};
+      rep = reps[r.below(4)];
+    }
+    // exact size of the request as integers (no wrap): ew = 1 when it does not fit 2^31 (then an accepted call is wrong)
+    size_t sz = size_of_type(t);
+    unsigned __int128 exact = (unsigned __int128)cnt * sz * rep;
+    int ew = exact >= ((unsigned __int128)1 << 31) ? 1 : 0;
+    char xj[64]; snprintf(xj, sizeof xj, ",\"ew\":%d,\"eb\":%u", ew, ew ? 0u : unsigned(exact));
+    char in[96]; snprintf(in, sizeof in, "type=%u count=%zu repeat=%zu", t, cnt, rep);
+    extra_json = xj;
     call("earr", in, [&]() -> uint32_t { return uint32_t(em->embed_data_array(TypeId(t), databuf, cnt, rep)); });
   }
   void c_embed_label() {
@@ -1103,8 +1142,22 @@ struct Exec {
     }
     probe();
     if (emk != 0) {
+      // make finalize fail INSIDE a pass now and then: the register allocator meets a never-created virtual register
+      // (Compiler), or a user pass refuses (Builder and Compiler)
+      unsigned fs = unsigned(r.below(4));
+      if (cc && in_func && fs == 0) {
+        Operand_ ops[2]; Operand a = Reg::from_type_and_id(RegType::kGp32, Operand::kVirtIdMin + 5000 + uint32_t(r.below(100))); Operand i1 = Imm(1); ops[0] = a; ops[1] = i1;
+        emit_tuple(is_x86 ? uint32_t(x86::Inst::kIdMov) : uint32_t(a64::Inst::kIdMov), 0, RegOnly{}, nullptr, ops, 2, "badvreg");
+      }
       if (cc && in_func) c_func_end();
+      if (fs == 1) call("addpass", "C14FailPass", [&]() -> uint32_t { return uint32_t(bb->add_pass<C14FailPass>()); });
       call("finalize", "", [&]() -> uint32_t { return uint32_t(em->finalize()); });
+      // one more refused call: its error must reach exactly the attached handler (a stale handler pointer would not)
+      if (attached) {
+        uint32_t lid = valid_label_id();
+        char in[48]; snprintf(in, sizeof in, "label=%u size=3", lid);
+        call("elabel", in, [&]() -> uint32_t { return uint32_t(em->embed_label(Label(lid), 3)); });
+      }
     }
   }
 };
